@@ -18,7 +18,7 @@ RULE = ("For each scenario (async chain with nested generator-based managers and
         "enclosing stacks keep exactly their fault-free frames, the faulted stack keeps the frames outward of the failure; "
         "format(), format_flat(), as_stdlib_summary() succeed. Plus a fixed list of non-stack inputs. "
         "evaluations = injected runs; distinct_nontrivial = distinct (scenario, fault index tuple).")
-ASSUMPTIONS = ["faults are exceptions derived from Exception raised in place of the hook call (single faults: once as a direct Exception subclass and once as a RuntimeError subclass; pairs: Exception subclass)",
+ASSUMPTIONS = ["faults are exceptions derived from Exception raised in place of the hook call (single faults: as a direct Exception subclass and as subclasses of RuntimeError, IndexError, KeyError, AttributeError, TypeError, ValueError, AssertionError, LookupError, OSError, NotImplementedError (not StopIteration: from an iterator step that is the end of the iteration, not a fault); pairs: Exception subclass)",
                "'Stack under construction' = innermost active extract_child call at injection time"]
 
 
@@ -38,6 +38,15 @@ class Injected(Exception):
 
 class InjectedRuntimeError(RuntimeError):
     """a fault of a type the library itself raises and catches for its own purposes ('no frames')"""
+
+
+def _typed(base):
+    return type("Injected" + base.__name__, (base,), {"__doc__": "an injected fault that `except %s` would catch" % base.__name__})
+
+
+FAULT_CLASSES = [Injected, InjectedRuntimeError] + [_typed(b) for b in (
+    IndexError, KeyError, AttributeError, TypeError, ValueError, AssertionError, LookupError, OSError, NotImplementedError)]
+FAULT_BY_BASE = dict((c.__bases__[0].__name__, c) for c in FAULT_CLASSES[1:])
 
 
 @types.coroutine
@@ -571,22 +580,23 @@ def enumerate_faults(H, sc, arity, ctx, pairs_ok):
     for k, v in base["kinds"].items():
         ctx.count("invocations:" + k, v)
     for i in range(N):
-        # single faults of a RuntimeError type too (the library uses RuntimeError internally for 'no frames here')
-        H.fault_cls = InjectedRuntimeError
-        try:
-            run = H.run(sc.extract, (i,))
-        finally:
-            H.fault_cls = Injected
-        ctx.count("evaluations")
-        ctx.count("distinct_nontrivial")
-        ctx.count("runtimeerror_fault_runs")
-        problems = []
-        if len(run["injected"]) != 1:
-            problems.append("harness: %d faults delivered for index %d" % (len(run["injected"]), i))
-        judge(base, run, problems)
-        if problems:
-            ctx.violation({"scenario": sc.name, "faults": [i], "cls": "RuntimeError", "kind": run["injected"][0][1] if run["injected"] else None},
-                          "; ".join(problems)[:1500], "single-rt:" + (run["injected"][0][1] if run["injected"] else "none"))
+        # single faults of the exception types that library code is likely to catch for its own purposes
+        for cls in FAULT_CLASSES[1:]:
+            H.fault_cls = cls
+            try:
+                run = H.run(sc.extract, (i,))
+            finally:
+                H.fault_cls = Injected
+            ctx.count("evaluations")
+            ctx.count("distinct_nontrivial")
+            ctx.count("typed_fault_runs")
+            problems = []
+            if len(run["injected"]) != 1:
+                problems.append("harness: %d faults delivered for index %d" % (len(run["injected"]), i))
+            judge(base, run, problems)
+            if problems:
+                ctx.violation({"scenario": sc.name, "faults": [i], "cls": cls.__bases__[0].__name__, "kind": run["injected"][0][1] if run["injected"] else None},
+                              "; ".join(problems)[:1500], "single-%s:" % cls.__bases__[0].__name__ + (run["injected"][0][1] if run["injected"] else "none"))
         run = H.run(sc.extract, (i,))
         ctx.count("evaluations")
         ctx.count("distinct_nontrivial")
@@ -787,7 +797,7 @@ def replay(case):
 
         def only(H_, sc, arity, ctx, pairs_ok):
             base = H_.run(sc.extract)
-            H_.fault_cls = InjectedRuntimeError if case.get("cls") == "RuntimeError" else Injected
+            H_.fault_cls = FAULT_BY_BASE.get(case.get("cls"), Injected)
             run = H_.run(sc.extract, tuple(case["faults"]))
             H_.fault_cls = Injected
             problems = []
@@ -807,7 +817,7 @@ def replay(case):
     H.install()
     try:
         base = H.run(sc.extract)
-        H.fault_cls = InjectedRuntimeError if case.get("cls") == "RuntimeError" else Injected
+        H.fault_cls = FAULT_BY_BASE.get(case.get("cls"), Injected)
         run = H.run(sc.extract, tuple(case["faults"]))
         H.fault_cls = Injected
         problems = []
